@@ -22,7 +22,9 @@ import (
 
 	"github.com/fsnotify/fsnotify"
 	oci "github.com/opencontainers/runtime-spec/specs-go"
+	"golang.org/x/sys/unix"
 	"tags.cncf.io/container-device-interface/pkg/cdi"
+	specs "tags.cncf.io/container-device-interface/specs-go"
 	"verif/harness/hx"
 )
 
@@ -38,15 +40,16 @@ type c20Opt struct {
 }
 
 type c20Step struct {
-	Op       string   `json:"op"` // new configure dconfigure dget query refresh write remove mkdir rmdir
-	Opts     []c20Opt `json:"opts,omitempty"`
-	Dir      string   `json:"dir,omitempty"`
-	Name     string   `json:"name,omitempty"`
-	Devs     []string `json:"devs,omitempty"` // unqualified device names of a loadable Spec
-	Bad      bool     `json:"bad,omitempty"`  // content that does not load
-	Shortage bool     `json:"shortage,omitempty"`
-	Observe  bool     `json:"observe,omitempty"`
-	Probe    string   `json:"probe,omitempty"` // final | former
+	Op       string     `json:"op"` // new configure dconfigure dget query refresh write remove mkdir rmdir writespec removespec others
+	Opts     []c20Opt   `json:"opts,omitempty"`
+	Dir      string     `json:"dir,omitempty"`
+	Name     string     `json:"name,omitempty"`
+	Devs     []string   `json:"devs,omitempty"` // unqualified device names of a loadable Spec
+	Bad      bool       `json:"bad,omitempty"`  // content that does not load
+	Shortage bool       `json:"shortage,omitempty"`
+	Observe  bool       `json:"observe,omitempty"`
+	Probe    string     `json:"probe,omitempty"`  // final | former
+	Others   [][]string `json:"others,omitempty"` // op others: directory lists of further caches kept alive during the step
 }
 
 type c20In struct {
@@ -155,13 +158,18 @@ func c20Eq(a, b []string) bool {
 	return true
 }
 
-// c20Answers: ListDevices, keys of per-file errors, keys of directory errors.
+// c20Answers: the devices (ListDevices; each as name@defining file, from GetDevice(name).GetSpec().GetPath()), keys of per-file
+// errors, keys of directory errors.
 func c20Answers(c *cdi.Cache) (devs, errs, derrs []string) {
-	devs = c.ListDevices()
-	sort.Strings(devs)
-	if devs == nil {
-		devs = []string{}
+	devs = []string{}
+	for _, n := range c.ListDevices() {
+		p := "?"
+		if d := c.GetDevice(n); d != nil {
+			p = d.GetSpec().GetPath()
+		}
+		devs = append(devs, n+"@"+p)
 	}
+	sort.Strings(devs)
 	de := c.GetSpecDirErrors()
 	derrs = c20Keys(de)
 	errs = []string{}
@@ -210,6 +218,91 @@ func c20FirstQuery(c *cdi.Cache, k int, pool []string) (string, string) {
 		sort.Strings(l)
 		return "ListDevices", fmt.Sprint(l)
 	}
+}
+
+// c20Wrappers / c20ViaHandle: what the package-level functions say, and the same through the handle of the default cache.
+func c20Wrappers(pool []string) string {
+	var out []string
+	for _, d := range pool {
+		if un, _ := cdi.InjectDevices(&oci.Spec{}, d); len(un) == 0 {
+			out = append(out, d)
+		}
+	}
+	return fmt.Sprint(out, c20Keys(cdi.GetErrors()))
+}
+
+func c20ViaHandle(c *cdi.Cache, pool []string) string {
+	var out []string
+	for _, d := range pool {
+		if un, _ := c.InjectDevices(&oci.Spec{}, d); len(un) == 0 {
+			out = append(out, d)
+		}
+	}
+	return fmt.Sprint(out, c20Keys(c.GetErrors()))
+}
+
+// c20Straggler — DEFECT-PENDING(straggler-direrrors).  A reconfiguration while the watch goroutine of the replaced watcher still
+// holds an event: this goroutine takes the cache lock; Configure(st.Opts) is called by another goroutine and waits for it; a
+// link to a FIFO named h.json appears in the watched directory st.Dir, the watch goroutine accepts the event and queues behind
+// Configure; the lock is released; Configure sets up the new watch (st.Name, a directory of the new list, is missing) and its
+// rescan stops at the FIFO; st.Name is created with a Spec in it; the link is removed and the rescan released; Configure returns;
+// the goroutine of the old watcher handles its event.
+func c20Straggler(cache *cdi.Cache, st c20Step, eventLog, outside string) {
+	size := func() int64 {
+		if fi, err := os.Stat(eventLog); err == nil {
+			return fi.Size()
+		}
+		return 0
+	}
+	fifo := filepath.Join(outside, "hold")
+	_ = os.Remove(fifo)
+	if unix.Mkfifo(fifo, 0o644) != nil {
+		return
+	}
+	defer os.Remove(fifo)
+	link := filepath.Join(st.Dir, "h.json")
+	cache.Lock()
+	done := make(chan bool, 1)
+	go func() {
+		_ = cache.Configure(c20Options(st.Opts)...)
+		done <- true
+	}()
+	time.Sleep(20 * time.Millisecond)
+	size0 := size()
+	_ = os.Symlink(fifo, link)
+	c20Until(time.Second, func() bool { return size() > size0 })
+	time.Sleep(10 * time.Millisecond)
+	cache.Unlock()
+	wfd := -1
+	c20Until(2*time.Second, func() bool {
+		fd, err := unix.Open(fifo, unix.O_WRONLY|unix.O_NONBLOCK, 0)
+		if err == nil {
+			wfd = fd
+		}
+		return err == nil
+	})
+	_ = os.Mkdir(st.Name, 0o755)
+	_ = os.WriteFile(filepath.Join(st.Name, "x.json"), c20SpecBytes("x.json", []string{"x0"}, false), 0o644)
+	_ = os.Remove(link)
+	if wfd >= 0 {
+		_ = unix.Close(wfd)
+	}
+	select {
+	case <-done:
+	case <-time.After(5 * time.Second):
+	}
+	time.Sleep(50 * time.Millisecond)
+}
+
+func hasWatcher(c *cdi.Cache) bool { _, has := cdi.VerifTracked(c); return has }
+
+// c20Spec: the Spec Cache.WriteSpec is given (the same devices c20SpecBytes writes).
+func c20Spec(devs []string) *specs.Spec {
+	sp := &specs.Spec{Version: "0.5.0", Kind: c20Kind}
+	for _, d := range devs {
+		sp.Devices = append(sp.Devices, specs.Device{Name: d, ContainerEdits: specs.ContainerEdits{Env: []string{"DEV=" + d}}})
+	}
+	return sp
 }
 
 func c20Options(opts []c20Opt) []cdi.Option {
@@ -347,12 +440,15 @@ func c20Child(args []string) int {
 		return d
 	}
 	seenSet, seenDevs := map[string]bool{}, []string{} // every device name a fresh cache has listed so far
+	isDefault := false                                 // the cache of the history is the package-level default cache
+	wrapperNote, othersNote := "", ""
 	observe := func(i int, st c20Step) c20Obs {
 		ob := c20Obs{Step: i}
 		// what a manual-mode fresh cache answers right now: the target the cache under test has to reach by itself
 		tc, _ := cdi.NewCache(append(append([]cdi.Option{}, allOpts...), cdi.WithAutoRefresh(false))...)
 		tdevs, terrs, _ := c20Answers(tc)
 		for _, d := range tdevs {
+			d = strings.SplitN(d, "@", 2)[0]
 			if !seenSet[d] {
 				seenSet[d] = true
 				seenDevs = append(seenDevs, d)
@@ -424,6 +520,26 @@ func c20Child(args []string) int {
 		if staleFirst != "" {
 			ob.Devs = append(ob.Devs, staleFirst)
 		}
+		if isDefault {
+			// the package-level functions are the same cache: cdi.GetErrors and cdi.InjectDevices must agree with the handle
+			// (asked again a few times: the watch goroutine may slip in between the two)
+			for try := 0; try < 5; try++ {
+				w, h := c20Wrappers(seenDevs), c20ViaHandle(cache, seenDevs)
+				if w == h {
+					wrapperNote = ""
+					break
+				}
+				wrapperNote = "PACKAGE-LEVEL FUNCTIONS DISAGREE WITH THE DEFAULT CACHE: " + w + " | through the handle: " + h
+				time.Sleep(5 * time.Millisecond)
+			}
+			if wrapperNote != "" {
+				ob.Devs = append(ob.Devs, wrapperNote)
+			}
+		}
+		if othersNote != "" {
+			ob.Devs = append(ob.Devs, othersNote)
+			othersNote = ""
+		}
 		ob.Dirs = cache.GetSpecDirectories()
 		// resources, after the asynchronous teardown of closed watchers
 		units := 0
@@ -477,15 +593,86 @@ func c20Child(args []string) int {
 			panicked, pmsg = hx.Guard(func() { _ = cdi.Configure(c20Options(st.Opts)...) })
 			noteOpts(st.Opts)
 			cache = cdi.GetDefaultCache()
+			isDefault = true
 		case "dget":
 			panicked, pmsg = hx.Guard(func() { cache = cdi.GetDefaultCache() })
+			isDefault = true
 		case "query":
 			if cache != nil {
 				panicked, pmsg = hx.Guard(func() { _ = cache.ListDevices() })
 			}
 		case "refresh":
 			if cache != nil {
-				panicked, pmsg = hx.Guard(func() { _ = cache.Refresh() })
+				panicked, pmsg = hx.Guard(func() {
+					if isDefault && i%2 == 0 {
+						_ = cdi.Refresh() // the package-level function
+					} else {
+						_ = cache.Refresh()
+					}
+				})
+			}
+		case "straggler":
+			if cache != nil {
+				panicked, pmsg = hx.Guard(func() { c20Straggler(cache, st, in.EventLog, in.CalibDir) })
+				noteOpts(st.Opts)
+			}
+		case "writespec":
+			// Cache.WriteSpec as the source of the change: writes into the last configured directory (st.Dir says which one that is)
+			if cache != nil && exists(st.Dir) {
+				panicked, pmsg = hx.Guard(func() { _ = cache.WriteSpec(c20Spec(st.Devs), st.Name) })
+			}
+		case "removespec":
+			if cache != nil {
+				panicked, pmsg = hx.Guard(func() { _ = cache.RemoveSpec(st.Name) })
+			}
+		case "others":
+			// Other caches come and go next to the one under test: they share nothing with it.  While they are alive the process
+			// holds one watcher's worth of resources for each of them that has a watcher, the cache under test answers as
+			// before; afterwards everything they held is released (the observation that follows counts).
+			if cache != nil {
+				panicked, pmsg = hx.Guard(func() {
+					before, _, _ := c20Answers(cache)
+					var m0 c20Res
+					prev, stable := c20Res{fd: -2}, 0
+					c20Until(patience(3*time.Second), func() bool { // a settled baseline
+						m0, _ = c20Measure()
+						if m0 == prev {
+							stable++
+						} else {
+							stable = 0
+						}
+						prev = m0
+						return stable >= 5
+					})
+					var others []*cdi.Cache
+					withWatcher := 0
+					for k, ds := range st.Others {
+						oc, _ := cdi.NewCache(cdi.WithSpecDirs(ds...), cdi.WithAutoRefresh(k%3 != 2))
+						_ = oc.ListDevices()
+						if _, has := cdi.VerifTracked(oc); has && k%3 != 2 {
+							withWatcher++
+						}
+						others = append(others, oc)
+					}
+					var m c20Res
+					okRes := c20Until(patience(3*time.Second), func() bool {
+						m, _ = c20Measure()
+						return m.ino-m0.ino == withWatcher && m.fd-m0.fd == withWatcher*out.UnitFd && m.gor-m0.gor == withWatcher*out.UnitGor
+					})
+					if !okRes {
+						othersNote = fmt.Sprintf("%d FURTHER CACHES (%d with a watcher) ALIVE: inotify +%d, descriptors +%d, goroutines +%d; one watcher is %d descriptors, %d goroutines",
+							len(others), withWatcher, m.ino-m0.ino, m.fd-m0.fd, m.gor-m0.gor, out.UnitFd, out.UnitGor)
+					}
+					for k, oc := range others {
+						if k%2 == 0 {
+							_ = oc.Configure(cdi.WithSpecDirs()) // on another list first
+						}
+						_ = oc.Configure(cdi.WithAutoRefresh(false))
+					}
+					if after, _, _ := c20Answers(cache); !c20Eq(before, after) && othersNote == "" && !hasWatcher(cache) {
+						othersNote = fmt.Sprintf("THE CACHE ANSWERS DIFFERENTLY AFTER OTHER CACHES CAME AND WENT: %v | before: %v", after, before)
+					}
+				})
 			}
 		case "write":
 			if exists(st.Dir) {
@@ -583,10 +770,12 @@ func c20OpTerm(st c20Step) string {
 		return "Query"
 	case "refresh":
 		return "Refresh"
-	case "write":
+	case "write", "writespec":
 		return hx.C("FsOp", hx.C("WriteFile", hx.S(st.Dir), hx.S(st.Name), c20FileTerm(c20File{st.Devs, st.Bad})))
-	case "remove":
+	case "remove", "removespec":
 		return hx.C("FsOp", hx.C("RemoveFile", hx.S(st.Dir), hx.S(st.Name)))
+	case "others":
+		return hx.C("Configure", "[]") // other caches: nothing happens to this one
 	case "mkdir":
 		return hx.C("FsOp", hx.C("MkDir", hx.S(st.Dir)))
 	case "rmdir":
@@ -627,18 +816,23 @@ func c20DescStep(root string, st c20Step) string {
 		}
 		b.WriteString(")")
 	}
-	if st.Dir != "" {
+	if st.Op == "straggler" {
+		b.WriteString(" while the watch goroutine holds an event of " + rel(st.Dir) + " and waits for the cache lock; " + rel(st.Name) + " appears during the rescan of Configure")
+	} else if st.Dir != "" {
 		b.WriteString(" " + rel(st.Dir))
 		if st.Name != "" {
 			b.WriteString("/" + st.Name)
 		}
-		if st.Op == "write" {
+		if st.Op == "write" || st.Op == "writespec" {
 			if st.Bad {
 				b.WriteString(" <unloadable>")
 			} else {
 				b.WriteString(" " + strings.Join(st.Devs, ","))
 			}
 		}
+	}
+	if st.Op == "others" {
+		b.WriteString(fmt.Sprintf(" (%d further caches created, queried, reconfigured and switched off)", len(st.Others)))
 	}
 	if st.Shortage {
 		b.WriteString(" [no descriptors]")
@@ -720,6 +914,26 @@ func c20Gen(r *hx.R, kind, root string, maxConf int) *c20Hist {
 					k = 0
 				}
 				var ds, clean []string
+				if len(curDirs) >= 2 && r.Chance(0.2) {
+					// the same directories in another order (precedence changes, nothing else), at times with one dropped or doubled
+					perm := r.Perm(len(curDirs))
+					if r.Chance(0.5) {
+						for a := range perm { // plain reversal
+							perm[a] = len(curDirs) - 1 - a
+						}
+					}
+					for _, j := range perm {
+						ds = append(ds, spell(curDirs[j]))
+						clean = append(clean, curDirs[j])
+					}
+					switch r.Intn(6) {
+					case 0:
+						ds, clean = ds[1:], clean[1:]
+					case 1:
+						ds, clean = append(ds, spell(clean[0])), append(clean, clean[0])
+					}
+					k = 0
+				}
 				for j := 0; j < k; j++ {
 					d := hx.Pick(r, pool)
 					if r.Chance(0.1) {
@@ -771,6 +985,22 @@ func c20Gen(r *hx.R, kind, root string, maxConf int) *c20Hist {
 			d = hx.Pick(r, all)
 		}
 		st := c20Step{Dir: d, Observe: created && r.Chance(0.5)}
+		if created && len(curDirs) > 0 && exists[curDirs[len(curDirs)-1]] && r.Chance(0.12) {
+			// through the cache: WriteSpec / RemoveSpec act on the last configured directory
+			st.Dir = curDirs[len(curDirs)-1]
+			st.Name = hx.Pick(r, specNames)
+			if r.Chance(0.65) {
+				st.Op = "writespec"
+				st.Devs = genFile(st.Name).devs
+				if st.Devs == nil {
+					st.Devs = []string{strings.SplitN(st.Name, ".", 2)[0] + "0"}
+				}
+			} else {
+				st.Op = "removespec"
+			}
+			h.in.Steps = append(h.in.Steps, st)
+			return
+		}
 		switch x := r.Intn(20); {
 		case x < 9:
 			st.Op, st.Name = "write", hx.Pick(r, specNames)
@@ -815,6 +1045,17 @@ func c20Gen(r *hx.R, kind, root string, maxConf int) *c20Hist {
 		}
 		if r.Chance(0.1) {
 			h.in.Steps = append(h.in.Steps, c20Step{Op: "refresh", Observe: true})
+		}
+		if r.Chance(0.06) {
+			var others [][]string
+			for k, n := 0, 1+r.Intn(5); k < n; k++ {
+				var ds []string
+				for j, m := 0, 1+r.Intn(3); j < m; j++ {
+					ds = append(ds, hx.Pick(r, all))
+				}
+				others = append(others, ds)
+			}
+			h.in.Steps = append(h.in.Steps, c20Step{Op: "others", Others: others, Observe: true})
 		}
 		if kind == "single" {
 			addConf(c20Step{Op: "configure", Opts: genOpts(true)})
@@ -935,7 +1176,16 @@ func (h *c20Hist) toCase() hx.Case {
 		if st.Shortage {
 			steps = append(steps, "SOp (SetFdShortage true)")
 		}
-		steps = append(steps, hx.C("SOp", c20OpTerm(st)))
+		if st.Op == "straggler" {
+			// what happened, in the order the configure machine sees it
+			steps = append(steps, hx.C("SOp", hx.C("FsOp", hx.C("WriteFile", hx.S(st.Dir), hx.S("h.json"), "Bad"))))
+			steps = append(steps, hx.C("SOp", hx.C("Configure", c20OptsTerm(st.Opts))))
+			steps = append(steps, hx.C("SOp", hx.C("FsOp", hx.C("MkDir", hx.S(st.Name)))))
+			steps = append(steps, hx.C("SOp", hx.C("FsOp", hx.C("WriteFile", hx.S(st.Name), hx.S("x.json"), c20FileTerm(c20File{[]string{"x0"}, false})))))
+			steps = append(steps, hx.C("SOp", hx.C("FsOp", hx.C("RemoveFile", hx.S(st.Dir), hx.S("h.json")))))
+		} else {
+			steps = append(steps, hx.C("SOp", c20OpTerm(st)))
+		}
 		if st.Shortage {
 			steps = append(steps, "SOp (SetFdShortage false)")
 		}
@@ -945,7 +1195,7 @@ func (h *c20Hist) toCase() hx.Case {
 			rel := func(l []string) []string {
 				o := make([]string, len(l))
 				for i, x := range l {
-					o[i] = strings.TrimPrefix(strings.TrimPrefix(x, h.root+"/"), c20Kind+"=")
+					o[i] = strings.TrimPrefix(strings.ReplaceAll(x, h.root+"/", ""), c20Kind+"=")
 				}
 				return o
 			}
@@ -995,8 +1245,11 @@ func genC20(r *hx.R, tier string, scratch string) (*hx.Suite, error) {
 			"non-clean spellings, empty lists, repeated directories; WithAutoRefresh on/off; empty option lists) on one cache created by NewCache or on the " +
 			"package-level default cache (created by GetDefaultCache or by Configure, reconfigured through cdi.Configure or through the handle), interleaved with " +
 			"Spec files written/replaced/removed (loadable, unloadable, non-Spec names) and directories created/removed in current and former directories, explicit " +
-			"queries and Refresh calls, and RLIMIT_NOFILE lowered to the lowest free descriptor number around randomly chosen (re)configurations. After every " +
-			"(re)configuration / Refresh and half of the directory changes: GetSpecDirectories, ListDevices, GetErrors keys, GetSpecDirErrors keys, VerifTracked, " +
+			"queries and Refresh calls (cdi.Refresh for the default cache), the same directories given again in another order (precedence only), " +
+			"Cache.WriteSpec / RemoveSpec as sources of changes, up to five further caches created, queried, reconfigured and switched off next to the one " +
+			"under test (resources counted while they are alive), and RLIMIT_NOFILE lowered to the lowest free descriptor number around randomly chosen (re)configurations. After every " +
+			"(re)configuration / Refresh and half of the directory changes: GetSpecDirectories, ListDevices with the defining file of every device " +
+			"(GetDevice(..).GetSpec().GetPath()), for the default cache cdi.InjectDevices / cdi.GetErrors against the handle, GetErrors keys, GetSpecDirErrors keys, VerifTracked, " +
 			"/proc/self/fd count, inotify instances and watches from fdinfo, runtime.NumGoroutine (all after settling, polled with deadlines) and the same answers " +
 			"from a fresh cache created with every option given so far. At the end a probe Spec is dropped into every final and every former directory without " +
 			"any explicit refresh. Non-trivial: at least two (re)configurations.",
